@@ -188,3 +188,35 @@ def compare_replay(op, specname):
         return None
 
     return replay
+
+
+def index_replay():
+    def replay(inputs):
+        import specs.rfc6901 as pspec
+
+        ptr = importlib.import_module("jsonpath.pointer")
+        p = ptr.JSONPointer("")
+        s = inputs["s"]
+        got = _outcome(p._index, s)
+        want = _outcome(pspec.index_token, s, p.min_int_index, p.max_int_index)
+        if got != want or type(got[1]) is not type(want[1]):
+            return f"JSONPointer._index({s!r}) {got[0]} {got[1]!r} but spec {want[0]} {want[1]!r}"
+        return None
+
+    return replay
+
+
+def getitem_replay():
+    def replay(inputs):
+        import specs.rfc6901 as pspec
+
+        ptr = importlib.import_module("jsonpath.pointer")
+        p = ptr.JSONPointer("")
+        obj, key = real(inputs["obj"]), real(inputs["key"])
+        got = _outcome(p._getitem, obj, key)
+        want = _outcome(pspec.step, obj, key)
+        if got != want:
+            return f"JSONPointer._getitem({obj!r}, {key!r}) {got[0]} {got[1]!r} but RFC 6901 step {want[0]} {want[1]!r}"
+        return None
+
+    return replay
